@@ -366,6 +366,8 @@ def _fields_into(fx, key, trait, names, acc_param=None):
             seen.add(o)
             if o[0] == "arg" and o[1] == 1 and o[2]:
                 res_.add(o[2][0])
+            elif o[0] == "arg" and o[1] == 1:
+                res_.add("*")       # the node as a whole (handed to a helper that picks what it needs)
             elif o[0] == "agg" and d < 5:
                 for op in flow.agg_at(o)["ops"]:
                     if op.get("k") in ("copy", "move"):
@@ -435,8 +437,10 @@ def rule_siblings(ctx):
             ikey = "%s|%s" % (tr_f.split("::")[-1], selfty)
             # binders are renamed consistently or removed from the set: fields that only one side touches are compared after removing
             # the ones the free-variable side *removes* (a binder) - those are audited by name in audit/traversal.toml (skip_fields)
-            only_s = sorted(fs - ff)
-            if only_s:
+            only_s = sorted(fs - ff - {"*"})
+            if "*" in ff:
+                res.inst(ikey, f0["sp"]["file"], f0["sp"]["line"], "ok", "the node as a whole is handed to a helper whose result is counted", nontrivial=False)
+            elif only_s:
                 res.inst(ikey, f0["sp"]["file"], f0["sp"]["line"], "violation", "renamed but not counted: %s" % only_s)
                 res.violate(ikey, "%s renames field(s) %s of %s, but %s never counts them (neither hands them to the recursive call nor inserts them into the "
                             "set): a free variable is missing from the set, so a lifted or linearized statement does not receive it" %
